@@ -118,6 +118,8 @@ def render_const(op):
             return repr(op[key])
     if "fn" in op:
         return "fn:" + norm(op["fn"]).split("::")[-1]
+    if "bytes" in op:
+        return "b" + repr("".join(chr(x) for x in op["bytes"]))
     return op.get("text", "?")
 
 
